@@ -203,6 +203,7 @@ func (ld *Loaded) contractVC(c *Contract, o vcOpts) (vc *VC, err error) {
 	x.obligs = nil
 	mods := x.resolveMods(c.Modifies, inst.args, st, nil)
 	rv, rst := x.run(c.Fn, inst.args, &State{h: st.h.clone(), facts: x.seedFacts}, x.b.True())
+	retCond := x.retCond
 	var results []Value
 	switch t := rv.(type) {
 	case nil:
@@ -247,10 +248,12 @@ func (ld *Loaded) contractVC(c *Contract, o vcOpts) (vc *VC, err error) {
 		if cl.Label != "" {
 			name = cl.Label
 		}
-		q.Goals = append(q.Goals, NamedTerm{name, r})
+		q.Goals = append(q.Goals, NamedTerm{name, x.b.Implies(retCond, r)})
 	}
 	if o.frame {
-		q.Goals = append(q.Goals, x.frameGoals(pre, rst.h, mods, nil)...)
+		for _, g := range x.frameGoals(pre, rst.h, mods, nil) {
+			q.Goals = append(q.Goals, NamedTerm{g.Name, x.b.Implies(retCond, g.T)})
+		}
 	}
 	if o.safety {
 		q.Goals = append(q.Goals, x.obligs...)
